@@ -83,6 +83,52 @@ impl Line {
             g,
         }
     }
+    /// The same graph with other weights: loop numbers, spanning flags, trees and forests do not depend on the
+    /// weights, so omega, J, the cumulative edge probabilities and I_tr follow exactly (BigRational on the exact
+    /// values of the doubles).  None when the re-weighted graph is not comfortably accepted.
+    pub fn reweight(&self, inst: &Value, w: &[f64]) -> Option<Line> {
+        use num::rational::BigRational as Q;
+        use num::{One, Signed, ToPrimitive, Zero};
+        let e = self.e;
+        let n = 1usize << e;
+        let wq: Vec<Q> = w.iter().map(|&x| Q::from_float(x).unwrap()).collect();
+        let half_d = Q::new((self.d as i64).into(), 2.into());
+        let lq = |id: usize| Q::from_integer(as_i64(&inst["l"][id]).into());
+        let sum = |id: usize| (0..e).filter(|b| id >> b & 1 == 1).fold(Q::zero(), |a, b| a + &wq[b]);
+        let dod = sum(n - 1) - &half_d * lq(n - 1);
+        let gd: Vec<Q> = (0..n).map(|id| if id == 0 { Q::one() } else {
+            sum(id) - &half_d * lq(id) - if inst["s"][id].as_bool().unwrap() { dod.clone() } else { Q::zero() } }).collect();
+        let q2f = |q: &Q| -> f64 {
+            let (nb, db) = (q.numer().bits() as i64, q.denom().bits() as i64);
+            let shift = (nb - db) - 60;
+            let (nn, dd) = if shift > 0 { (q.numer().clone(), q.denom().clone() << shift as usize) } else { (q.numer().clone() << (-shift) as usize, q.denom().clone()) };
+            (&nn / &dd).to_f64().unwrap_or(f64::NAN) * 2f64.powi(shift as i32)
+        };
+        let wabs: f64 = w.iter().sum::<f64>() + self.d as f64 / 2.0 * self.l as f64;
+        // comfortably accepted: every proper omega and dod well above the rounding of the code's own omega
+        if !dod.is_positive() || q2f(&dod) < 1e6 * f64::EPSILON * wabs { return None; }
+        for id in 1..n - 1 { if !gd[id].is_positive() || q2f(&gd[id]) < 1e6 * f64::EPSILON * wabs { return None; } }
+        let mut jq: Vec<Q> = vec![Q::one(); n];
+        for id in 1..n { jq[id] = (0..e).filter(|b| id >> b & 1 == 1).fold(Q::zero(), |a, b| { let sub = id ^ (1 << b); a + &jq[sub] / &gd[sub] }); }
+        let mut cum: Vec<Vec<Option<f64>>> = vec![vec![]; n];
+        for id in 1..n {
+            if id.count_ones() < 2 { continue; }
+            let mut acc = Q::zero();
+            for b in (0..e).filter(|b| id >> b & 1 == 1) {
+                let sub = id ^ (1 << b);
+                acc += &jq[sub] / (&jq[id] * &gd[sub]);
+                cum[id].push(Some(q2f(&acc)));
+            }
+        }
+        let mut g = self.g.clone();
+        g.wf = Some(w.to_vec());
+        Some(Line {
+            g, e, l: self.l, d: self.d, dod: q2f(&dod), m: self.m.clone(), routings: self.routings.clone(), utrees: self.utrees.clone(),
+            f2: self.f2.clone(), fm: self.fm.clone(), nt: self.nt, cmin: self.cmin, csum: self.csum, generic: self.generic,
+            gd: gd.iter().map(|q| q2f(q)).collect(), cum, cum_exact: vec![vec![]; n], j_exact: vec![(0, 0); n], w_units: vec![0; n],
+            itr: Some(q2f(&jq[n - 1])),
+        })
+    }
     fn mono(&self, x: &[f64], id: usize) -> f64 {
         (0..self.e).filter(|b| id >> b & 1 == 1).map(|b| x[b]).product()
     }
@@ -257,7 +303,7 @@ fn check_point(cx: &mut Ctx, s: &dyn DynSampler, cached_spec: Option<f64>, ri: u
         Outcome::Ok => {}
         Outcome::ErrGamma => {
             // the Gamma draw failed: then the public quantile of (dod, designated coordinate) must be an error too
-            if momtrop::gamma::inverse_gamma_lr(&line.dod, &x[2 * line.e - 2], 50, &5.0).is_ok() {
+            if momtrop::gamma::inverse_gamma_lr(&s.dod(), &x[2 * line.e - 2], 50, &5.0).is_ok() {
                 cx.viol("C12", "sample returned GammaError although inverse_gamma_lr(dod, x[2E-2]) is a value".into(), ri, x, json!({}));
             }
             return None;
@@ -384,7 +430,7 @@ fn check_point(cx: &mut Ctx, s: &dyn DynSampler, cached_spec: Option<f64>, ri: u
     }
     // ------------------------------------------------------------------ C12 (binding): lambda is the quantile of its coordinate
     let lam = meta.lambda;
-    match momtrop::gamma::inverse_gamma_lr(&line.dod, &x[2 * e - 2], 50, &5.0) {
+    match momtrop::gamma::inverse_gamma_lr(&s.dod(), &x[2 * e - 2], 50, &5.0) {   // the sampler's own degree of divergence
         Ok(want) => if want.to_bits() != lam.to_bits() { cx.viol("C12", format!("lambda {} is not inverse_gamma_lr(dod, x[2E-2]) = {}", lam, want), ri, x, json!({})); },
         Err(_) => cx.viol("C12", "sample succeeded although the Gamma quantile of its coordinate is an error".into(), ri, x, json!({})),
     }
@@ -544,8 +590,14 @@ fn boundary_checks(cx: &mut Ctx, s: &dyn DynSampler, rng: &mut impl Rng, max_sub
         cands.push((1.0 - 1e-9, vec![n - 1], "1-1e-9"));
         cands.push((1.0 - f64::EPSILON, (0..n).collect(), "1-2^-52"));
         cands.push((1.0 - f64::EPSILON / 2.0, (0..n).collect(), "1-2^-53"));
-        for (u, okpos, tag) in cands {
+        for (u, okpos0, tag) in cands {
             if !(0.0..1.0).contains(&u) { continue; }
+            // legal positions from the exact cumulative sums with a rounding guard band (covers tails of any size)
+            let band = 8.0 * f64::EPSILON;
+            let mut okpos: Vec<usize> = (0..n).filter(|&k| (k == 0 || cumv[k - 1] <= u * (1.0 + band)) && u * (1.0 - band) <= cumv[k]).collect();
+            if okpos.is_empty() { okpos.push(n - 1); }
+            if tag == "at_exact" { okpos = okpos0.clone(); }
+            let _ = &okpos0;
             // build the point: steer the prefix, then u at this step, then anything
             let mut x = vec![0.5; dim];
             let mut id = (1usize << e) - 1;
@@ -644,6 +696,35 @@ pub fn run(lines: &[Value], opts: &SampleOpts) -> Summary {
         }
         if opts.boundary {
             boundary_checks(&mut cx, samplers[0].as_ref(), &mut rng, 6);
+        }
+        // ---- the same structure with weights spread over many orders of magnitude (numerical range)
+        if (li as u64 + opts.seed) % 3 == 0 && line.e >= 2 && line.e <= 5 {
+            const PAL: [f64; 12] = [1e-11, 1e-9, 1e-6, 1e-3, 0.3, 1.0 / 3.0, 0.7, 1.25, 2.5, 10.0, 1e3, 1e6];
+            for _try in 0..6 {
+                let small = rng.gen_bool(0.6);
+                let w: Vec<f64> = (0..line.e).map(|_| if small && rng.gen_bool(0.35) { PAL[rng.gen_range(0..4)] } else { PAL[rng.gen_range(4..10)] }).collect();
+                if let Some(rl) = line.reweight(inst, &w) {
+                    let mut spec2 = rl.g.to_spec(&map, &[]);
+                    spec2.weights = w.clone();
+                    let sb: Vec<Box<dyn DynSampler>> = rl.routings.iter().filter_map(|(sig, _)| match build(&spec2, sig.clone(), rl.d) { BuildOut::Ok(s) => Some(s), _ => None }).collect();
+                    if sb.len() != rl.routings.len() {
+                        sm.violation("C05", "build of a re-weighted, comfortably accepted graph failed".into(), json!({"line": inst, "idx": idx, "weights": w}), json!({"reweighted": true}));
+                        break;
+                    }
+                    sm.count("reweighted_lines");
+                    let cs2 = rl.itr.map(|itr| itr * (ln_gamma(rl.dod) - w.iter().map(|&x| ln_gamma(x)).sum::<f64>()).exp() * std::f64::consts::PI.powf((rl.d * rl.l) as f64 / 2.0));
+                    let mut inst2 = inst.clone();
+                    inst2["reweighted"] = json!(w.iter().map(|x| hexf(*x)).collect::<Vec<_>>());
+                    let mut cx2 = Ctx { line: &rl, inst: &inst2, idx, sm: &mut sm };
+                    let dim2 = sb[0].dim();
+                    let mut pts2: Vec<Point> = vec![];
+                    if rl.e <= 3 { for o in permutations(rl.e) { pts2.push(make_point(&rl, dim2, Some(&o), &mut rng, 0)); } }
+                    for k in 0..4 { pts2.push(make_point(&rl, dim2, None, &mut rng, (k % 2) as u32)); }
+                    for pt in &pts2 { for (ri, s2) in sb.iter().enumerate().take(2) { check_point(&mut cx2, s2.as_ref(), cs2.filter(|c| c.is_finite() && *c > 0.0), ri, pt, None); } }
+                    if opts.boundary { boundary_checks(&mut cx2, sb[0].as_ref(), &mut rng, 4); }
+                    break;
+                }
+            }
         }
     }
     sm
